@@ -272,3 +272,71 @@ Lemma stem_path_witness :
   In (w_out ++ [w_ns; [46; 46]; [46; 46]; [46; 46]; [101; 46; 104]]) (c11_targets same true w_ext w_up_stem w_out true w_id [w_T; w_U]) /\
   resolve (rev w_out) [w_ns; [46; 46]; [46; 46]; [46; 46]; [101; 46; 104]] = [[101; 46; 104]].
 Proof. vm_compute. repeat split; try reflexivity; try discriminate; auto. Qed.
+
+(* ---- support files: every support_namespace STRING -------------------------------------------------------------------------- *)
+Lemma alnum_not_sep c : is_alnum_us c = true -> c <> 47 /\ c <> 46.
+Proof.
+  unfold is_alnum_us, is_alpha_us. intros H. split; intros ->; vm_compute in H; discriminate.
+Qed.
+
+Lemma ident_comp_facts c : ident_comp c = true -> c <> [] /\ ~ In SLASH c /\ ~ In DOT c.
+Proof.
+  unfold ident_comp. destruct c as [|x r]; [discriminate|]. intros H. apply andb_prop in H. destruct H as [_ H].
+  rewrite forallb_forall in H. split; [discriminate|].
+  split; intros X; apply H, alnum_not_sep in X; destruct X as [X1 X2]; [apply X1 | apply X2]; reflexivity.
+Qed.
+
+Lemma ident_comp_join cur c : ident_comp c = true -> join_part cur c = cur ++ [c].
+Proof.
+  intros H. destruct (ident_comp_facts c H) as (Hne & Hs & Hd). unfold join_part.
+  assert (Ha : stem_abs c = false).
+  { unfold stem_abs. destruct c as [|x r]; [reflexivity|]. destruct (N.eqb_spec x 47) as [->|]; [|reflexivity].
+    exfalso. apply Hs. left; reflexivity. }
+  rewrite Ha. unfold stem_parts. rewrite (split_on_none 47 c Hs). cbn [filter].
+  destruct (str_eqb_spec c []); [contradiction|].
+  destruct (str_eqb_spec c [46]) as [->|]; [exfalso; apply Hd; left; reflexivity|]. reflexivity.
+Qed.
+
+Lemma support_dir_fold comps : forall cur, forallb ident_comp comps = true -> fold_left join_part comps cur = cur ++ comps.
+Proof.
+  induction comps as [|c comps IH]; intros cur H; cbn [fold_left]; [rewrite app_nil_r; reflexivity|].
+  cbn [forallb] in H. apply andb_prop in H. destruct H as [Hc H].
+  rewrite (ident_comp_join cur c Hc), IH by assumption. rewrite <- app_assoc. reflexivity.
+Qed.
+
+Theorem support_dir_valid outdir sn : sn_valid sn = true ->
+  exists rel, support_dir outdir sn = outdir ++ rel /\ Forall safe_comp rel.
+Proof.
+  unfold sn_valid, support_dir. intros H. apply orb_prop in H. destruct H as [H|H].
+  - destruct (str_eqb_spec sn []) as [E|]; [subst sn|discriminate]. exists []. split; [vm_compute; reflexivity | constructor].
+  - exists (split_on 46 sn). split; [apply support_dir_fold; assumption|].
+    apply Forall_forall. intros c Hc. rewrite forallb_forall in H. destruct (ident_comp_facts c (H c Hc)) as (A & B & C).
+    split; [assumption|]. split; [assumption|]. split; intros ->; apply C; left; reflexivity.
+Qed.
+
+(* every support file of a run that does not raise lies below the output directory, for EVERY support_namespace string when
+   the code validates it (flag = true); otherwise under the excluded trigger sn_valid *)
+Theorem support_targets_inside flag outdir sn sfiles l :
+  support_targets flag outdir sn sfiles = Some l ->
+  (if flag then True else sn_valid sn = true) ->
+  Forall safe_comp sfiles ->
+  forall q, In q l -> exists rel, q = outdir ++ rel /\ Forall safe_comp rel /\ forall st, resolve st rel = rev rel ++ st.
+Proof.
+  unfold support_targets. intros H G Hs q Hq.
+  assert (V : sn_valid sn = true).
+  { destruct flag; [|exact G]. cbn [andb] in H. destruct (sn_valid sn); [reflexivity | cbn [negb] in H; discriminate]. }
+  rewrite V in H. cbn [negb] in H. rewrite andb_false_r in H. injection H as <-.
+  apply in_map_iff in Hq. destruct Hq as (f & <- & Hf).
+  destruct (support_dir_valid outdir sn V) as (rel & E & F). exists (rel ++ [f]).
+  assert (FF : Forall safe_comp (rel ++ [f])).
+  { apply Forall_app. split; [assumption|]. constructor; [|constructor]. rewrite Forall_forall in Hs. apply Hs; assumption. }
+  split; [rewrite E, <- app_assoc; reflexivity|]. split; [assumption|]. apply resolve_safe; assumption.
+Qed.
+
+(* unvalidated code: an absolute support namespace puts the support files outside the output directory: G-C11-2 / F-SUPPORT-NS-PATH *)
+Definition w_sn_abs : str := [47; 101; 115; 99].         (* "/esc" *)
+Lemma support_ns_witness :
+  support_targets false w_out w_sn_abs [[102]] = Some [[[47]; [101; 115; 99]; [102]]] /\
+  support_targets true w_out w_sn_abs [[102]] = None /\
+  support_targets true w_out [110; 46; 115] [[102]] = Some [w_out ++ [[110]; [115]; [102]]].
+Proof. vm_compute. repeat split; reflexivity. Qed.
